@@ -79,6 +79,14 @@ def run2(ctx):
         ctx.account(sim)
         behs += sim.emitted
         ctx.log("SIM W=%d TOff=%d: %d walks" % (w, off, len(sim.emitted)))
+    if ctx.want("simkf"):
+        # walks that may trigger the known findings of the deletion / restart family: their own mismatches are reported under
+        # their ids, anything else (e.g. a *different* loss after the same trigger) is a violation
+        sim = ctx.tlc("db", "Db", "SIM_c01_kf.cfg", simulate=(15 if q else 800), depth=6 * d, workers=8,
+                      constants={"MaxOps": d, "W": 5, "TOff": 6}, timeout=(300 if q else 2400))
+        ctx.account(sim)
+        behs += sim.emitted
+        ctx.log("SIM (known-finding triggers allowed): %d walks" % len(sim.emitted))
     ctx.samples = [behs[0], behs[len(behs) // 2], behs[-1]]
     inp = ctx.write_ndjson("behaviours.ndjson", behs)
     gr = ctx.go_test("tsdb", ["db_replay_test.go"], "^TestVerifDbReplay$", env={"VERIF_IN": inp, "VERIF_MODE": "c01"}, timeout="30m")
